@@ -2,6 +2,7 @@
 """Regenerates MANIFEST.json from the table below (run after adding a check)."""
 import json, subprocess
 HOOK = subprocess.run(["git","-C","/repo","log","--format=%H","--grep=^verif hook"],capture_output=True,text=True).stdout.split()
+HOOK.reverse()
 CHECKS = {
  "C02": ("E-SEQ", "exhaustive enumeration of all concatenations of <= k text atoms (words, Unicode whitespace, punctuation, combining characters, emoji, CJK); output compared with an independent splice of the reported occurrences; token-wise accounting on streams", "4.C02", "atom alphabet; the tokenizer is reached through the cfg-guarded hook"),
  "C04": ("E-SWEEP", "exhaustive enumeration of every rank x inflection x spelling variant through validator, scanner and occurrence fields, against reference ordinal spellers", "4.C04", "ordinal spellers and marker table are the specification; ranks up to the stated bound"),
@@ -34,7 +35,7 @@ m = {
  "setup_cmd": "cd /verif/harness && CARGO_NET_OFFLINE=true cargo build --release --offline",
  "hooks": {
    "guard": "cargo feature \"verif\" of the text2num crate (off by default)",
-   "enable": "the harness depends on text2num (path /repo via harness/repo) with features=[\"verif\"]",
+   "enable": "the harness depends on text2num (path /repo via harness/repo) with features=[\"verif\"]: re-export of the private tokenizer, and an optional yield hook at the entry of every mutating DigitString operation (used by C14's scheduler)",
    "baseline_off_cmd": "cd /repo && cargo test --workspace --no-fail-fast --offline",
    "source_commits": HOOK,
    "add_only": True,
